@@ -37,6 +37,7 @@ class Engine(ExecMixin, CallMixin, EvalMixin):
         self.externs = {}
         self.elemref_fns = {}
         self._ordcache = {}
+        self._hq = {}
         self.globalrefs = {}
         self.path_ends = []       # (kind, trace)
         import externs
@@ -53,7 +54,7 @@ class Engine(ExecMixin, CallMixin, EvalMixin):
         return I
 
     def skey(self, t):
-        return short(t)
+        return re.sub(r'\bbyte\b', 'uint8', short(t))
 
     def leaves(self, t):
         """component suffixes of a non-struct, non-array type"""
@@ -320,7 +321,7 @@ class Engine(ExecMixin, CallMixin, EvalMixin):
         if op in ('Call', 'Go', 'Defer'):
             if 'invoke' in ins: return ('Call', 'invoke.' + ins['invoke'])
             c = ins['callee']
-            return ('Call', short(c.get('name', '?')) if c['k'] in ('func', 'builtin') else 'dyn')
+            return ('Call', self.shortfn(c.get('name', '?')) if c['k'] in ('func', 'builtin') else 'dyn')
         if op == 'UnOp': return ('UnOp', ins['unop'])
         if op == 'BinOp': return ('BinOp', ins['binop'])
         return (op, '')
@@ -343,7 +344,7 @@ class Engine(ExecMixin, CallMixin, EvalMixin):
         self.obls.append(Obl(nm, kind, list(st.pc), goal, list(st.trace), where, text))
 
     def shortfn(self, name):
-        s = short(name)
+        s = re.sub(r'[\w.\-]+(?:/[\w.\-]+)*/', '', name)
         return s.replace('netpoll.', '')
 
     # ------------------------------------------------------------------ operand values
@@ -391,6 +392,9 @@ class Engine(ExecMixin, CallMixin, EvalMixin):
     def wrap(self, v, t):
         """wrap mathematical v into the range of integer type t"""
         bits, signed = self.p.intinfo(t)
+        if bits == 64 and signed:
+            self.assumptions.add('64-bit signed integer arithmetic (int, int64) is treated as mathematical (no wrap-around)')
+            return v
         if z3.is_int_value(v):
             x = v.as_long(); m = 1 << bits
             x %= m
